@@ -69,6 +69,19 @@ Fixpoint min_rows (nb : N) (row : N) (bk : list N) (cs : list N) (acc : N) : N :
 Definition cm_estimate (s : cm) (bk : list N) : N :=
   min_rows (cm_nb s) 0 bk (cm_counts s) (cm_max s).
 
+(* T::saturating_add (countmin/value.rs; added by the repair of D15) *)
+Definition tsat_add (mx a b : N) : N := N.min (a + b) mx.
+
+(* lower_bound = estimate; upper_bound = estimate.saturating_add(error) where
+   error = T::from_f64(relative_error() * total_weight as f64) is a value of T computed with
+   f64 arithmetic ([err] is an input here; the executable float formula is in Corr/CountMin.v).
+   Before the repair the sum was T's plain `+`: [tadd], Stuck on overflow (debug) / wrapped (release). *)
+Definition cm_lower_bound (s : cm) (bk : list N) : N := cm_estimate s bk.
+Definition cm_upper_bound (s : cm) (bk : list N) (err : N) : N :=
+  tsat_add (cm_max s) (cm_estimate s bk) err.
+Definition cm_upper_bound_before_fix (s : cm) (bk : list N) (err : N) : outcome N :=
+  tadd (cm_max s) (cm_estimate s bk) err.
+
 Fixpoint add_lists (mx : N) (a b : list N) : outcome (list N) :=
   match a, b with
   | x :: a', y :: b' =>
